@@ -51,3 +51,9 @@ def _with(shards, extra):
 import glob as _glob, os as _os
 for _f in sorted(_glob.glob(_os.path.join(_os.path.dirname(_os.path.abspath(__file__)), "spec_C*.py"))):
     exec(compile(open(_f).read(), _f, "exec"), globals())
+
+# file-level job lists written by the whole-file harness author are merged into their properties here
+if "C06_FILE_JOBS" in globals() and "C06" in PROPS and not any(j["name"] == C06_FILE_JOBS[0]["name"] for j in PROPS["C06"]["jobs"]):
+    PROPS["C06"]["jobs"] = PROPS["C06"]["jobs"] + C06_FILE_JOBS
+if "C07_FILE_JOBS" in globals() and "C07" in PROPS and not any(j["name"] == C07_FILE_JOBS[0]["name"] for j in PROPS["C07"]["jobs"]):
+    PROPS["C07"]["jobs"] = PROPS["C07"]["jobs"] + C07_FILE_JOBS
